@@ -21,6 +21,7 @@ RULE = (
     "cleanup >= 50 ms, or a payload started within 5 ms of the trigger; distinct = canonical JSON of the scenario."
 )
 ASSUMPTIONS = [
+    "one interrupt per run: a second SIGINT while the runtime is going down is Python's force-quit convention (asyncio re-raises it at once) and is outside the statement",
     "interleavings and trigger instants are sampled; bounded liveness (20 s) stands for 'never prevents termination'",
     "asyncio cleanup is synchronous only (the statement lists shielded asynchronous cleanup for trio only); payloads never swallow cancellation",
     "T_end is taken after the call returned, payload timestamps inside the payloads: an event later than T_end is really later",
@@ -32,7 +33,7 @@ CANCEL = {"asyncio": "asyncio.CancelledError", "trio": "trio.Cancelled"}
 @st.composite
 def scenario(draw):
     runner = draw(st.sampled_from(["service", "service", "meta"]))
-    trig = draw(st.sampled_from(["failure", "failure", "failure", "sigint", "shutdown", "kbint-raise"]))
+    trig = draw(st.sampled_from(["failure", "failure", "failure", "sigint", "shutdown", "kbint-raise", "shutdown+failure", "shutdown+failure"]))
     at = draw(st.sampled_from([0, 2, 10, 40, 120]))
     payloads, drivers = [], [[]]
     pid = 10
@@ -61,7 +62,20 @@ def scenario(draw):
         payloads.append({"id": 300 + i, "flavour": "threading", "role": "blocked", "reg": {"how": "pre"}, "program": [["block", 60000]],
                          "end": ["return", "None"]})
     trigger = {"kind": trig, "at_ms": at}
-    if trig in ("failure", "kbint-raise"):
+    if trig in ("shutdown+failure", "sigint+sigint"):
+        # a second trigger while the runtime is already going down (inside the payloads' cleanup window)
+        delta = draw(st.sampled_from([0, 1, 5, 20, 60, 150]))
+        drivers.append([{"at_ms": at, "op": ("shutdown" if runner == "service" else "stop") if trig == "shutdown+failure" else "sigint"}])
+        if trig == "sigint+sigint":
+            drivers.append([{"at_ms": at + delta, "op": "sigint"}])
+        else:
+            flv = draw(st.sampled_from(ALL))
+            k = draw(st.sampled_from(["exc", "ret", "base", "base"]))
+            names = {"exc": [n for n in EXC_NAMES if n != "StopIteration"], "ret": RETURN_NAMES, "base": BASE_NAMES}[k]
+            end = ["return" if k == "ret" else "raise", draw(st.sampled_from(names))]
+            payloads.append({"id": 1, "flavour": flv, "role": "trigger", "reg": {"how": "pre"}, "program": [["sleep", at + delta]], "end": end})
+            trigger["flavour"], trigger["end"], trigger["delta"] = flv, end, delta
+    elif trig in ("failure", "kbint-raise"):
         flv = draw(st.sampled_from(ALL if trig == "failure" else ["asyncio", "threading"]))
         if trig == "kbint-raise":
             end = ["raise", "KeyboardInterrupt"]
